@@ -32,9 +32,84 @@ def summarize(e, spec, wall, err=None):
     }
 
 
+def product(ll_a, ll_b, spec):
+    """C15 build equivalence: execute two IR flavours of the same harness on the same symbolic inputs and require
+    that every observable agrees wherever both path conditions hold (DESIGN.md 3.C15)"""
+    import z3
+    from alg import zbool
+    t0 = time.time()
+    ea = eb = None
+    try:
+        cfg = dict(spec.get('cfg', {}), keep_paths=True)
+        ea = Engine(parse_module(open(ll_a).read()), Config(mode=spec['mode'], **cfg)); ea.run('@vf_main')
+        eb = Engine(parse_module(open(ll_b).read()), Config(mode=spec['mode'], **cfg)); eb.run('@vf_main')
+        r = summarize(ea, spec, 0)
+        rb = summarize(eb, spec, 0)
+        r['failures'] += rb['failures']; r['n_failures'] += rb['n_failures']
+        r['inconclusive'] += rb['inconclusive']
+        r['paths'] += rb['paths']; r['instrs'] += rb['instrs']
+        for k, v in rb['queries'].items(): r['queries'][k] = r['queries'].get(k, 0) + v
+        r['functions'] = sorted(set(r['functions']) | set(rb['functions']))
+        A = ea.A
+        npairs = 0; ndiv = 0
+        pa_ok = [p for p in ea.paths if p['how'] == 'returned' and not p['tainted']]
+        pb_ok = [p for p in eb.paths if p['how'] == 'returned' and not p['tainted']]
+        if len(pa_ok) * len(pb_ok) > spec.get('max_pairs', 4000):
+            r['inconclusive'].append(f'product: {len(pa_ok)} x {len(pb_ok)} path pairs exceed the cap')
+        else:
+            for pa in pa_ok:
+                for pb in pb_ok:
+                    st = pa['state']
+                    both = pa['pc'] + pb['pc']
+                    diffs = []
+                    if len(pa['observes']) != len(pb['observes']) or [k for k, _ in pa['observes']] != [k for k, _ in pb['observes']]:
+                        diffs = [z3.BoolVal(True)]
+                    else:
+                        for (k, x), (_, y) in zip(pa['observes'], pb['observes']):
+                            if isinstance(x, int) and isinstance(y, int):
+                                if x != y: diffs.append(z3.BoolVal(True))
+                                continue
+                            bits = 64
+                            tx = A.term(st, x, bits) if not z3.is_expr(x) or True else x
+                            ty = A.term(st, y, bits)
+                            if z3.is_expr(tx) and z3.is_expr(ty) and tx.sort() != ty.sort():
+                                diffs.append(z3.BoolVal(True)); continue
+                            diffs.append(tx != ty)
+                        sa = [(s_, c) for s_, c in pa['asserted']]; sb = [(s_, c) for s_, c in pb['asserted']]
+                        if [s_ for s_, _ in sa] != [s_ for s_, _ in sb]:
+                            diffs.append(z3.BoolVal(True))
+                    if not diffs:
+                        continue
+                    npairs += 1
+                    save = st.pc
+                    st.pc = both
+                    rs, m = ea.check(st, z3.Or(*diffs), want_model=True)
+                    st.pc = save
+                    if rs == 'sat':
+                        ndiv += 1
+                        if ndiv <= 3:
+                            r['failures'].append({'kind': 'BUILD-DIVERGENCE', 'what': 'NDEBUG -O2 and assertion-enabled -O0 builds observe different results',
+                                                  'site': None, 'inputs': ea.model_inputs(st, m), 'ufs': ea.model_ufs(st, m), 'events': [], 'where': None})
+                            r['n_failures'] += 1
+                    elif rs == 'unknown':
+                        r['inconclusive'].append('product: solver unknown on a path pair')
+        r['product'] = {'pairs_checked': npairs, 'divergent': ndiv, 'paths_a': len(pa_ok), 'paths_b': len(pb_ok)}
+        r['verdict'] = 'fail' if r['failures'] else ('inconclusive' if r['inconclusive'] else 'pass')
+        r['wall_s'] = round(time.time() - t0, 3)
+        r['solver_s'] = round(ea.tq + eb.tq, 3)
+        return r
+    except Inconclusive as ex:
+        return summarize(ea, spec, time.time() - t0, str(ex))
+    except Exception as ex:
+        tb = traceback.format_exc().splitlines()
+        return summarize(ea, spec, time.time() - t0, f'encoder error: {type(ex).__name__}: {ex} @ {tb[-3].strip() if len(tb) > 2 else ""}')
+
+
 def run_ir(ll, spec):
     t0 = time.time()
     e = None
+    if spec.get('product_ll'):
+        return product(ll, spec['product_ll'], spec)
     try:
         mod = parse_module(open(ll).read())
         cfg = Config(mode=spec['mode'], **spec.get('cfg', {}))
